@@ -4,6 +4,7 @@ import (
 	"fmt"
 	"go/token"
 	"go/types"
+	"sort"
 	"strings"
 
 	"golang.org/x/tools/go/ssa"
@@ -854,15 +855,16 @@ func ruleNotificationErrorsDropped(c *chk.Ctx, d *dispatchModel) {
 
 func ruleSemaphore(c *chk.Ctx, d *dispatchModel) {
 	f := d.invoke
-	for _, pr := range c.M.Scoped {
-		c.Undecided("ANCHOR", nil, pr, 0, "anchor resolution failed: %s", pr)
-	}
-	if c.M.SSem == nil {
+	ops := semOps(c)
+	if ops == nil {
+		for _, pr := range c.M.Scoped {
+			c.Undecided("ANCHOR", nil, pr, 0, "anchor resolution failed: %s", pr)
+		}
 		return
 	}
 	isSem := func(ci ssa.CallInstruction, m string) bool {
-		cc := ci.Common()
-		return ir.IsCallTo(cc, "(*golang.org/x/sync/semaphore.Weighted)."+m) && len(cc.Args) > 0 && chk.LoadsField(cc.Args[0], c.M.SSem)
+		_, ok := ops[m][ci]
+		return ok
 	}
 	var acq *ssa.Call
 	ir.Instrs(f, func(ins ssa.Instruction) {
@@ -877,16 +879,13 @@ func ruleSemaphore(c *chk.Ctx, d *dispatchModel) {
 	sameErr := func(x ssa.Value) bool { return x == ssa.Value(acq) || ir.NormCell(x) == ssa.Value(acq) }
 	okDom := ir.InstrDominates(acq, d.handlerCall) && ir.ProvesNil(ir.CondsAt(d.handlerCall.Block()), sameErr)
 	c.Check(okDom, "PAIR.sem", f, "handler under a slot", d.handlerCall.Pos(), "the handler call is dominated by the err == nil edge of sem.Acquire", "the handler can run without a successfully acquired semaphore slot (also when the waiter was cancelled)")
-	w, _ := ir.ConstInt(acq.Call.Args[2])
-	// every Release in the repository
+	w := ops["Acquire"][acq]
+	// every Release in the repository (a call of a one-line wrapper counts as the call it wraps)
 	var releases []ssa.CallInstruction
-	for _, g := range c.P.Funcs {
-		ir.Calls(g, func(ci ssa.CallInstruction) {
-			if ir.IsCallTo(ci.Common(), "(*golang.org/x/sync/semaphore.Weighted).Release") {
-				releases = append(releases, ci)
-			}
-		})
+	for ci := range ops["Release"] {
+		releases = append(releases, ci)
 	}
+	sort.Slice(releases, func(i, j int) bool { return releases[i].Pos() < releases[j].Pos() })
 	for _, r := range releases {
 		g := r.Parent()
 		okPlace := g == f
@@ -902,7 +901,7 @@ func ruleSemaphore(c *chk.Ctx, d *dispatchModel) {
 				okPlace = false
 			}
 		}
-		wr, _ := ir.ConstInt(r.Common().Args[1])
+		wr := ops["Release"][r]
 		c.Check(okPlace && wr == w, "PAIR.sem", g, "release site", r.Pos(), fmt.Sprintf("Release(%d) in the acquiring function (or a closure it defers)", wr),
 			fmt.Sprintf("semaphore Release(%d) [acquire weight %d] outside the acquiring function's own control flow: the slot could be returned while the handler is still running, or with a different weight", wr, w))
 	}
@@ -987,18 +986,172 @@ func calleesOf(c *chk.Ctx, ci ssa.CallInstruction) []*ssa.Function {
 	return gs
 }
 
+// semOps lists the Acquire and Release operations on the server's semaphore
+// with their weights (-1 when not constant). With the semaphore a field of
+// Server these are the calls whose receiver is a load of that field; when it is
+// kept inside a helper type instead, the root package must construct exactly
+// one semaphore, and then every Acquire/Release in the package operates on it.
+// A call of a wrapper — a function whose body performs exactly one such
+// operation, unconditionally, and (for Acquire) returns its result — counts as
+// the operation itself at the wrapper's call sites.
+func semOps(c *chk.Ctx) map[string]map[ssa.CallInstruction]int64 {
+	const wt = "(*golang.org/x/sync/semaphore.Weighted)."
+	if c.M.SSem == nil && len(semConstructions(c)) != 1 {
+		return nil
+	}
+	out := map[string]map[ssa.CallInstruction]int64{"Acquire": {}, "Release": {}}
+	argIdx := map[string]int{"Acquire": 2, "Release": 1}
+	for _, m := range []string{"Acquire", "Release"} {
+		direct := map[*ssa.Function][]ssa.CallInstruction{}
+		for _, g := range c.P.Funcs {
+			if !inPkg(c, g, c.M.Pkg) {
+				continue
+			}
+			ir.Calls(g, func(ci ssa.CallInstruction) {
+				cc := ci.Common()
+				if !ir.IsCallTo(cc, wt+m) || len(cc.Args) <= argIdx[m] {
+					return
+				}
+				if c.M.SSem != nil && !chk.LoadsField(cc.Args[0], c.M.SSem) {
+					return
+				}
+				direct[g] = append(direct[g], ci)
+			})
+		}
+		// wrappers, innermost first (bounded nesting)
+		type wrap struct {
+			weight int64
+			param  int // ≥ 0: the weight is this parameter
+		}
+		wrappers := map[*ssa.Function]wrap{}
+		weightOf := func(ci ssa.CallInstruction) (int64, int) {
+			cc := ci.Common()
+			if g := cc.StaticCallee(); g != nil {
+				if w, ok := wrappers[g]; ok {
+					if w.param >= 0 && w.param < len(cc.Args) {
+						if k, isC := ir.ConstInt(cc.Args[w.param]); isC {
+							return k, -1
+						}
+						if par, isP := cc.Args[w.param].(*ssa.Parameter); isP {
+							for i, q := range ci.Parent().Params {
+								if q == par {
+									return -1, i
+								}
+							}
+						}
+						return -1, -1
+					}
+					return w.weight, -1
+				}
+			}
+			a := cc.Args[argIdx[m]]
+			if k, isC := ir.ConstInt(a); isC {
+				return k, -1
+			}
+			if par, isP := a.(*ssa.Parameter); isP {
+				for i, q := range ci.Parent().Params {
+					if q == par {
+						return -1, i
+					}
+				}
+			}
+			return -1, -1
+		}
+		ops := map[*ssa.Function][]ssa.CallInstruction{}
+		for g, cs := range direct {
+			ops[g] = cs
+		}
+		for round := 0; round < 3; round++ {
+			grew := false
+			for g, cs := range ops {
+				if _, done := wrappers[g]; done || len(cs) != 1 || g.Parent() != nil || len(g.Blocks) == 0 {
+					continue
+				}
+				ci := cs[0]
+				call, isCall := ci.(*ssa.Call)
+				if !isCall || ci.Block() != g.Blocks[0] || len(c.P.Callers(g)) == 0 || c.P.UsedAsValue(g) {
+					continue
+				}
+				// nothing else happens in g: every other call would make it more than a wrapper
+				other := false
+				ir.Calls(g, func(x ssa.CallInstruction) {
+					if x != ci {
+						other = true
+					}
+				})
+				if other {
+					continue
+				}
+				if m == "Acquire" {
+					okRet := true
+					for _, r := range ir.Returns(g) {
+						if len(r.Results) != 1 || ir.NormCell(r.Results[0]) != ssa.Value(call) {
+							okRet = false
+						}
+					}
+					if !okRet {
+						continue
+					}
+				}
+				k, par := weightOf(ci)
+				wrappers[g] = wrap{weight: k, param: par}
+				for _, s := range c.P.Callers(g) {
+					ops[s.Caller] = append(ops[s.Caller], s.Instr)
+				}
+				grew = true
+			}
+			if !grew {
+				break
+			}
+		}
+		for g, cs := range ops {
+			for _, ci := range cs {
+				if _, isWrapper := wrappers[g]; isWrapper && len(direct[g]) == 1 && direct[g][0] == ci {
+					continue // the wrapped call itself: represented by the wrapper's call sites
+				}
+				if _, isWrapper := wrappers[g]; isWrapper {
+					continue
+				}
+				k, _ := weightOf(ci)
+				out[m][ci] = k
+			}
+		}
+	}
+	return out
+}
+
+// semConstructions returns the semaphore.NewWeighted calls of the root package.
+func semConstructions(c *chk.Ctx) []*ssa.Call {
+	var out []*ssa.Call
+	for _, g := range c.P.Funcs {
+		if !inPkg(c, g, c.M.Pkg) {
+			continue
+		}
+		ir.Calls(g, func(ci ssa.CallInstruction) {
+			if call, ok := ci.(*ssa.Call); ok && ir.IsCallTo(&call.Call, "golang.org/x/sync/semaphore.NewWeighted") {
+				out = append(out, call)
+			}
+		})
+	}
+	return out
+}
+
 func ruleSemSize(c *chk.Ctx) {
 	var nw *ssa.Call
-	for _, st := range c.P.FieldStores(c.M.SSem) {
-		if call, ok := st.Val.(*ssa.Call); ok && ir.IsCallTo(&call.Call, "golang.org/x/sync/semaphore.NewWeighted") {
-			nw = call
+	if c.M.SSem != nil {
+		for _, st := range c.P.FieldStores(c.M.SSem) {
+			if call, ok := st.Val.(*ssa.Call); ok && ir.IsCallTo(&call.Call, "golang.org/x/sync/semaphore.NewWeighted") {
+				nw = call
+			}
 		}
+	} else if cs := semConstructions(c); len(cs) == 1 {
+		nw = cs[0]
 	}
 	if nw == nil {
 		c.Undecided("PAIR.sem", nil, "semaphore size", 0, "semaphore construction not found")
 		return
 	}
-	arg := nw.Call.Args[0]
+	arg := c.P.Canon(nw.Call.Args[0])
 	acc, ok := arg.(*ssa.Call)
 	if !ok || acc.Call.StaticCallee() == nil || !c.P.InRepo[acc.Call.StaticCallee()] {
 		c.Fail("PAIR.sem", nw.Parent(), "semaphore size", nw.Pos(), "the semaphore size is not the direct result of the options accessor")
